@@ -4,7 +4,7 @@
 # rules that fire in seeded/<id>/meta.json (detected_by).
 cd "$(dirname "$0")" || exit 2
 wt="${1:-/tmp/seed/W}"
-for d in seeded/*/; do
+for d in seeded/${SEED_FILTER:-}*/; do
   id=$(basename "$d")
   prop=$(python3 -c "import json,sys;print(json.load(open('$d/meta.json'))['property'])")
   out=$(SEED_TAIL=40 SEED_COLS=200 ./seedcheck.sh "$wt" "$(pwd)/$d/patch.diff" "$prop")
